@@ -58,6 +58,7 @@ Definition c_pendcb (c : cpc) : bool :=
   match c with CWait o | CTbl o | CPend o | CRecv o => isop o | CNotify => true | _ => false end.
 Definition c_send (c : cpc) : bool := match c with CSend => true | _ => false end.
 Definition c_cleanT (c : cpc) : bool := match c with CWait _ | CTbl _ => true | _ => false end.
+Definition c_athalf (c : cpc) : bool := match c with KHalf => true | _ => false end.
 Definition c_ret (c : cpc) : bool := match c with KRet => true | _ => false end.
 Definition c_casbad (c : cpc) : bool := match c with CCas o => negb (isop o) | _ => false end.
 Definition gl (f : cpc -> bool) (g : gpc) : bool :=
@@ -157,7 +158,7 @@ Ltac cb := cbn [step estep gstep clstep sstep ustep cstep setg clear_pending mov
   set_st set_inproc set_cstate set_wg set_cbset set_intable set_cnotify set_pending set_recv set_inbox set_epc
   set_gors set_clos set_spc set_users set_script set_processed set_arrived set_chunks set_consumed set_offers
   set_nlocal set_nremote set_out set_khalf set_lhalf set_casfail
-  b2z nz c_needcl c_pendcb c_send c_cleanT c_ret c_casbad gl g_own g_re g_act g_run g_cb g_exit
+  b2z nz c_athalf c_needcl c_pendcb c_send c_cleanT c_ret c_casbad gl g_own g_re g_act g_run g_cb g_exit
   e_proxy e_guard e_clr e_halfn e_half upc utodo ures negb cz ncl] in *.
 
 Ltac cases s w :=
@@ -198,7 +199,14 @@ Ltac zeqh := repeat match goal with
   | H : context [?a =? ?b] |- _ => destruct (Z.eqb_spec a b)
   end.
 
+Lemma b2z_range b : 0 <= b2z b <= 1.
+Proof. destruct b; simpl; lia. Qed.
+Lemma e_range e : 0 <= e_proxy e <= 1 /\ 0 <= e_guard e <= 1 /\ 0 <= e_clr e <= 1 /\ 0 <= e_halfn e <= 1 /\ 0 <= e_half e <= 1.
+Proof. destruct e; simpl; lia. Qed.
 Ltac czpos s :=
+  pose proof (b2z_range (lhalf s)); pose proof (b2z_range (khalf s)); pose proof (b2z_range (casfail s));
+  pose proof (b2z_range (intable s)); pose proof (e_range (epc s));
+  pose proof (cz_nonneg c_athalf (clos s)); pose proof (cz_nonneg (gl c_athalf) (gors s));
   pose proof (cz_nonneg c_needcl (clos s)); pose proof (cz_nonneg (gl c_needcl) (gors s));
   pose proof (cz_nonneg c_pendcb (clos s)); pose proof (cz_nonneg (gl c_pendcb) (gors s));
   pose proof (cz_nonneg c_send (clos s)); pose proof (cz_nonneg (gl c_send) (gors s));
@@ -214,17 +222,17 @@ Ltac czin := match goal with
   | Hn : nth_error (clos _) _ = Some _ |- _ =>
       try (pose proof (cz_pos_in c_needcl _ _ _ Hn eq_refl)); try (pose proof (cz_pos_in c_pendcb _ _ _ Hn eq_refl));
       try (pose proof (cz_pos_in c_send _ _ _ Hn eq_refl)); try (pose proof (cz_pos_in c_cleanT _ _ _ Hn eq_refl));
-      try (pose proof (cz_pos_in c_ret _ _ _ Hn eq_refl)); pose proof (cz_ge_in c_casbad _ _ _ Hn)
+      try (pose proof (cz_pos_in c_ret _ _ _ Hn eq_refl)); try (pose proof (cz_pos_in c_athalf _ _ _ Hn eq_refl)); pose proof (cz_ge_in c_casbad _ _ _ Hn)
   | Hn : nth_error (gors _) _ = Some _ |- _ =>
       try (pose proof (cz_pos_in (gl c_needcl) _ _ _ Hn eq_refl)); try (pose proof (cz_pos_in (gl c_pendcb) _ _ _ Hn eq_refl));
       try (pose proof (cz_pos_in (gl c_send) _ _ _ Hn eq_refl)); try (pose proof (cz_pos_in (gl c_cleanT) _ _ _ Hn eq_refl));
       try (pose proof (cz_pos_in g_own _ _ _ Hn eq_refl)); try (pose proof (cz_pos_in g_re _ _ _ Hn eq_refl));
       try (pose proof (cz_pos_in g_act _ _ _ Hn eq_refl)); try (pose proof (cz_pos_in g_run _ _ _ Hn eq_refl));
-      try (pose proof (cz_pos_in g_cb _ _ _ Hn eq_refl)); pose proof (cz_ge_in (gl c_casbad) _ _ _ Hn)
+      try (pose proof (cz_pos_in g_cb _ _ _ Hn eq_refl)); try (pose proof (cz_pos_in (gl c_athalf) _ _ _ Hn eq_refl)); pose proof (cz_ge_in (gl c_casbad) _ _ _ Hn)
   | _ => idtac end.
 
 Ltac fin s :=
-  cb; rw_eqs; rw_cnt; cb; try assumption; try (intros; assumption); uc; zeqh; uc; cb; try lia; czin; cb; uc; zeqh; cb; try lia; czpos s; lia.
+  cb; rw_eqs; rw_cnt; cb; try assumption; try (intros; assumption); uc; zeqh; uc; cb; try lia; czin; cb; uc; zeqh; uc; cb; try lia; czpos s; lia.
 
 (* ====================================================================================================
    Base invariants (any initial callback mode)
@@ -248,11 +256,12 @@ Record InvA (s : est) : Prop := {
   b_acc : nlocal s + nremote s + e_halfn (epc s) + cz c_pendcb (clos s) + cz (gl c_pendcb) (gors s) + b2z (lhalf s)
           = (if st s =? c_streamOpened then 0 else 1);
   b_nn : 0 <= nlocal s /\ 0 <= nremote s;
-  b_lh : b2z (lhalf s) <= b2z (khalf s) /\ 0 <= b2z (lhalf s);
+  b_lh : b2z (lhalf s) <= b2z (khalf s);
+  b_kh : cz c_athalf (clos s) + cz (gl c_athalf) (gors s) = 0 \/ b2z (khalf s) = 1;
   b_sent : nlocal s = ncl (out s) + cz c_send (clos s) + cz (gl c_send) (gors s) }.
 
 Lemma stepA s w : InvA s -> InvA (step s w).
-Proof. intros [H1 [H2 H2'] [H3 H3'] H4]. cases s w; brk; constructor; fin s. Qed.
+Proof. intros [H1 [H2 H2'] H3 H3' H4]. cases s w; brk; constructor; fin s. Qed.
 
 (* session table, returned Close() calls, handled close notifications *)
 Record InvT (s : est) : Prop := {
@@ -261,8 +270,52 @@ Record InvT (s : est) : Prop := {
   b_ret2 : st s = c_streamClosed \/ b2z (khalf s) + b2z (casfail s) > 0 \/ cz c_ret (clos s) = 0;
   b_peer : ncl (processed s) > 0 -> st s <> c_streamOpened \/ e_half (epc s) = 1 }.
 
-Lemma stepT s w : InvP s -> InvT s -> InvT (step s w).
+Lemma stepT s w : InvP s -> InvA s -> InvT s -> InvT (step s w).
 Proof.
-  intros [P1 P2 P3 P4 P5 P6 P7] [H1 H2 H3 H4]. clear P1 P3 P5.
+  intros [P1 P2 P3 P4 P5 P6 P7] [A1 A2 A3 A4 A5] [H1 H2 H3 H4]. clear P1 P3 P5 A1 A2 A3 A5.
   cases s w; brk; constructor; fin s.
+Qed.
+
+(* ---------- ghost bytes: what arrived is what was taken out of pending (in order, once) plus what is
+   still pending; nothing is dropped and recvBuf is not recycled before the state is closed ---------- *)
+Definition movedof (ch : list (bool * list Z)) : list Z := concat (map snd (filter fst ch)).
+Lemma moved_eq s : moved s = movedof (chunks s).
+Proof. reflexivity. Qed.
+
+Record InvL (s : est) : Prop := {
+  l_A : arrived s = concat (map snd (chunks s)) ++ concat (pending s);
+  l_B : st s <> c_streamClosed -> forallb fst (chunks s) = true;
+  l_C : st s <> c_streamClosed -> movedof (chunks s) = consumed s ++ recv s }.
+
+Lemma L_add (ar X m : list Z) p : ar = X ++ concat p -> ar ++ m = X ++ concat (p ++ [m]).
+Proof. intros ->. rewrite concat_app. simpl. rewrite app_nil_r, app_assoc. reflexivity. Qed.
+Lemma L_take (ar : list Z) (ch : list (bool * list Z)) b p :
+  ar = concat (map snd ch) ++ concat p -> ar = concat (map snd (ch ++ [(b, concat p)])) ++ concat [].
+Proof. intros ->. rewrite map_app, concat_app. simpl. rewrite !app_nil_r. reflexivity. Qed.
+Lemma movedof_T ch x : movedof (ch ++ [(true, x)]) = movedof ch ++ x.
+Proof. unfold movedof. rewrite filter_app, map_app, concat_app. simpl. rewrite app_nil_r. reflexivity. Qed.
+Lemma movedof_F ch x : movedof (ch ++ [(false, x)]) = movedof ch.
+Proof. unfold movedof. rewrite filter_app, map_app, concat_app. simpl. rewrite app_nil_r. reflexivity. Qed.
+Lemma forallb_T (ch : list (bool * list Z)) x : forallb fst ch = true -> forallb fst (ch ++ [(true, x)]) = true.
+Proof. intros H. rewrite forallb_app, H. reflexivity. Qed.
+
+Ltac finL :=
+  cb; rw_eqs; try assumption;
+  try (match goal with
+       | |- _ <> _ -> _ => let Hne := fresh "Hne" in intros Hne;
+           first [ exfalso; uc; zeqh; uc; czin; lia
+                 | match goal with H : _ <> _ -> ?G |- ?G => apply H; uc; lia end
+                 | rewrite movedof_T; match goal with H : _ <> _ -> _ = _ |- _ => rewrite H by (uc; lia) end;
+                   rewrite ?app_assoc; reflexivity
+                 | apply forallb_T; match goal with H : _ <> _ -> _ |- _ => apply H; uc; lia end
+                 | match goal with H : _ <> _ -> _ = _ |- _ => rewrite H by (uc; lia) end;
+                   rewrite <- app_assoc, firstn_skipn; reflexivity ]
+       | |- _ ++ _ = _ ++ concat (_ ++ [_]) => apply L_add; assumption
+       | |- _ = concat (map snd (_ ++ [_])) ++ concat [] => apply L_take; assumption
+       end).
+
+Lemma stepL s w : InvP s -> InvL s -> InvL (step s w).
+Proof.
+  intros [P1 P2 P3 P4 P5 P6 P7] [H1 H2 H3]. clear P4 P5 P7.
+  cases s w; brk; constructor; finL.
 Qed.
